@@ -132,7 +132,7 @@ fn lib_ops(text: &str) -> Vec<(String, String)> {
 
 /// child: `vh total-run <texts.ndjson> <out.ndjson> <from index> <budget ms>`
 pub fn cmd_run(args: &[String]) -> i32 {
-    std::panic::set_hook(Box::new(|_| {}));
+    if std::env::var("VH_DEBUG").is_err() { std::panic::set_hook(Box::new(|_| {})); }
     let from: usize = args[2].parse().unwrap_or(0);
     let budget = Duration::from_millis(args[3].parse().unwrap_or(20000));
     let f = std::fs::File::open(&args[0]).expect("texts");
